@@ -17,6 +17,7 @@ import time
 from concurrent.futures import ThreadPoolExecutor
 
 HERE = os.path.dirname(os.path.dirname(os.path.abspath(__file__)))
+_TMP = "/var/tmp" if os.path.isdir("/var/tmp") else None  # scratch space outside /repo and /verif
 PY = os.environ.get("VP_PYTHON", "/venv/bin/python")
 
 
@@ -107,7 +108,7 @@ def regress_cases(prop):
 
 def run_single_case(prop, sub, case, x64, timeout=900):
     """Runs one case in a fresh interpreter; returns verdict dict or {'harness_error':...}."""
-    with tempfile.TemporaryDirectory(prefix="vp_case_", dir="/var/tmp") as td:
+    with tempfile.TemporaryDirectory(prefix="vp_case_", dir=_TMP) as td:
         cf = os.path.join(td, "case.json")
         of = os.path.join(td, "out.json")
         with open(cf, "w") as f:
@@ -172,7 +173,7 @@ def check(prop, tier, seed, only_sub=None, jobs=None):
             print(f"note: known finding {f['id']} no longer reproduces on this tree")
 
     # 3. generated search
-    with tempfile.TemporaryDirectory(prefix=f"vp_{prop}_", dir="/var/tmp") as td:
+    with tempfile.TemporaryDirectory(prefix=f"vp_{prop}_", dir=_TMP) as td:
         tasks = []
         for s in subs:
             n = int(s["shards"][tier])
